@@ -16,6 +16,7 @@ from harness.common import REJECT, REPO, xb, xs, unx, uns, batch_parallel, pmap,
 
 PROPERTY = "C08"
 DRIVERS = ["drv_c08"]
+PROPS_MODULES = ["Buidl.Props.C08", "Buidl.Props.C08Compose"]
 ANCHORS = [
     ("buidl/hd.py", "XPRV"), ("buidl/hd.py", "XPUB"),
     ("buidl/hd.py", "ALL_MAINNET_XPRVS"), ("buidl/hd.py", "ALL_MAINNET_XPUBS"),
